@@ -17,7 +17,7 @@ PROP = "C17"
 def random_ops(rng, n):
     ops = []
     for _ in range(n):
-        r = rng.randrange(12)
+        r = rng.randrange(13)
         per = rng.choice([0, 1000, 10000, 250000, 1000000, 5000000, rng.randrange(1, 60000000)])
         if r == 0:
             ops.append({"op": "sync_start", "period_us": per})
@@ -27,6 +27,10 @@ def random_ops(rng, n):
             ops.append({"op": "pdo_start", "period_us": per})
         elif r == 3:
             ops.append({"op": "pdo_stop"})
+        elif r == 12:
+            ops.append({"op": "pdo_cob", "id": rng.choice([0x181, 0x281, 0x1ABCDE, rng.randrange(1, 0x800)])})
+            if rng.random() < 0.7:      # restart with the same period
+                ops.append({"op": "pdo_start", "period_us": rng.choice([0, 10000, 250000])})
         elif r == 4:
             ops.append({"op": "pdo_set", "d": [rng.randrange(256), rng.randrange(256)]})
         elif r == 5:
